@@ -92,6 +92,19 @@ func c11Case(w *core.Worker, i int) {
 	base := core.FreshDir(w.Work, "base")
 	_ = os.WriteFile(filepath.Join(w.Work, "noop.sql"), []byte("PRINT 'sourced';\n"), 0644)
 	core.WriteFiles(base, p.Files)
+	linked := ""
+	if i%8 == 4 || i%8 == 6 {
+		// the first table is a symbolic link to a file in another directory: its control files, wherever csvq puts them, are
+		// gone when csvq has ended
+		for _, n := range []string{"f1.csv", "f1.tsv", "f1.json", "f1.jsonl", "f1.ltsv"} {
+			if _, ok := p.Files[n]; ok {
+				c10Link(base, []string{n})
+				linked = n
+				w.Count("procedures_over_a_symlinked_table", 1)
+				break
+			}
+		}
+	}
 	// make mtimes old so that "touched" is observable
 	old := time.Now().Add(-48 * time.Hour)
 	for n := range p.Files {
@@ -102,6 +115,9 @@ func c11Case(w *core.Worker, i int) {
 	allowed := map[string]bool{}
 	for n := range p.Files {
 		allowed[n] = true
+	}
+	if linked != "" {
+		allowed["store"], allowed["store/"+linked] = true, true
 	}
 	baselineStdout := ""
 	judge := func(d string, run txRun, variant string, env []string) {
